@@ -724,7 +724,9 @@ copy_sds(int32 sd_in, int32 sd_out, int32 tag, /* tag of input SDS */
      *-------------------------------------------------------------------------
      */
 
-    if (copy_an(infile_id, outfile_id, ref, tag, sds_ref, tag, path, options) < 0) {
+    /* the new SDS is known under TAG_GRP_DSET in the output file (that is the tag it is inserted into its vgroup
+       with), whatever tag the input vgroup used: attach the annotations to that tag */
+    if (copy_an(infile_id, outfile_id, ref, tag, sds_ref, TAG_GRP_DSET, path, options) < 0) {
         goto out;
     }
 
